@@ -38,6 +38,8 @@ func runC17(c *Ctx) {
 	// message payloads returned by the read helpers are memory of their own
 	helperReadMessageRules(c, "C17")
 	callerSliceRules(c, "C17")
+	// the caller's configuration (Dialer.Extensions, Upgrader fields) is not written by a handshake
+	configReadOnlyRules(c, "C17")
 }
 
 func c17UnsafeViews(c *Ctx) {
